@@ -815,6 +815,10 @@ func namespacesMain(args []string) error {
 	}
 	defer out.Close()
 
+	if *mode == "burst" {
+		burstMain(*seed, *n, *nops, out)
+		return nil
+	}
 	if *mode == "script" {
 		var sc nsScenario
 		if err := json.Unmarshal([]byte(*script), &sc); err != nil {
@@ -1018,4 +1022,257 @@ func (r *nsRig) runOne(sc *nsScenario, t *nsTrack, i int) {
 	sub := &nsScenario{Conns: sc.Conns, Names: sc.Names, Gated: sc.Gated, Ops: make([]nsOp, i+1)}
 	copy(sub.Ops, sc.Ops[:i+1])
 	r.runFrom(sub, t, i)
+}
+
+// ------------------------------------------------------------------ burst mode
+//
+// Concurrent emitters of several namespaces on ONE connection, both directions at once, text events
+// and events with binary attachments mixed.  Every argument that reaches a handler is decoded back
+// to (direction, namespace, emitter, sequence, position) so that the oracle can attribute every
+// delivered argument -- attachment bytes included -- to one emit of the handler's own namespace.
+
+type nsBurst struct {
+	ID     string   `json:"id"`
+	Mode   string   `json:"mode"`
+	Names  []string `json:"names"`
+	Tr     string   `json:"tr"`
+	Em     int      `json:"em"`     // emitters per (direction, namespace)
+	Rounds int      `json:"rounds"` // events per emitter
+	Bcast  bool     `json:"bcast"`  // emitter 0 of each namespace uses Namespace.Emit instead of socket.Emit
+	// deliveries: [srv, handlerNs, kind(0 text,1 binary), ns, em, seq, then 5 numbers per argument: dir ns em seq k]
+	Del    [][]int `json:"del"`
+	Closed bool    `json:"closed"`
+	Reason string  `json:"reason"`
+	Err    string  `json:"err,omitempty"`
+}
+
+const burstAtts = 3
+
+func burstBlob(dir, ns, em, seq, k int) sio.Binary {
+	b := make([]byte, 24)
+	b[0], b[1], b[2], b[3], b[4], b[5], b[6] = 0xFE, byte(dir), byte(ns), byte(em), byte(seq>>8), byte(seq), byte(k)
+	for i := 7; i < len(b); i++ {
+		b[i] = byte(i*7 + seq)
+	}
+	return b
+}
+
+// burstOwner decodes an argument back to its owner; anything else is "foreign" (dir 9).
+func burstOwner(b []byte) []int {
+	if len(b) == 24 && b[0] == 0xFE {
+		seq := int(b[4])<<8 | int(b[5])
+		ok := true
+		for i := 7; i < len(b); i++ {
+			if b[i] != byte(i*7+seq) {
+				ok = false
+			}
+		}
+		if ok {
+			return []int{int(b[1]), int(b[2]), int(b[3]), seq, int(b[6])}
+		}
+	}
+	return []int{9, 0, 0, 0, 0}
+}
+
+func burstNote(dir, ns, em, seq int) string { return fmt.Sprintf("note:%d:%d:%d:%d", dir, ns, em, seq) }
+
+func burstNoteOwner(s string) []int {
+	var dir, ns, em, seq int
+	if n, err := fmt.Sscanf(s, "note:%d:%d:%d:%d", &dir, &ns, &em, &seq); err == nil && n == 4 && s == burstNote(dir, ns, em, seq) {
+		return []int{dir, ns, em, seq, 8}
+	}
+	return []int{9, 0, 0, 0, 0}
+}
+
+func runBurst(sc *nsBurst) {
+	var (
+		mu   sync.Mutex
+		cond = sync.NewCond(&mu)
+		del  [][]int
+	)
+	rec := func(row []int) {
+		mu.Lock()
+		del = append(del, row)
+		mu.Unlock()
+		cond.Broadcast()
+	}
+	idx := map[string]int{}
+	for i, n := range sc.Names {
+		idx[normNsp(n)] = i
+	}
+	register := func(srv int, hns int, on func(string, any)) {
+		on("t", func(ns, em, seq int, s string) {
+			rec(append([]int{srv, hns, 0, ns, em, seq}, burstNoteOwner(s)...))
+		})
+		on("b", func(ns, em, seq int, a0, a1, a2 sio.Binary) {
+			row := []int{srv, hns, 1, ns, em, seq}
+			for _, a := range []sio.Binary{a0, a1, a2} {
+				row = append(row, burstOwner(a)...)
+			}
+			rec(row)
+		})
+	}
+
+	cfg := &sio.ServerConfig{}
+	cfg.EIO.WebSocketAcceptOptions = &websocket.AcceptOptions{CompressionMode: websocket.CompressionDisabled}
+	srv := sio.NewServer(cfg)
+	ssock := make([]sio.ServerSocket, len(sc.Names))
+	for _, n := range sc.Names {
+		nsp := srv.Of(n)
+		hns := idx[normNsp(n)]
+		nsp.Use(func(socket sio.ServerSocket, hs *sio.Handshake) any {
+			register(1, hns, socket.OnEvent)
+			return nil
+		})
+		nsp.OnConnection(func(socket sio.ServerSocket) {
+			mu.Lock()
+			ssock[hns] = socket
+			mu.Unlock()
+			cond.Broadcast()
+		})
+	}
+	if err := srv.Run(); err != nil {
+		sc.Err = err.Error()
+		return
+	}
+	ts := httptest.NewServer(srv)
+	defer ts.Close()
+	defer srv.Close()
+
+	mcfg := &sio.ManagerConfig{NoReconnection: true}
+	mcfg.EIO.Transports = []string{sc.Tr}
+	mcfg.EIO.WebSocketDialOptions = &websocket.DialOptions{CompressionMode: websocket.CompressionDisabled}
+	m := sio.NewManager(ts.URL, mcfg)
+	defer m.Close()
+	var closed bool
+	var reason string
+	m.OnClose(func(r sio.Reason, err error) {
+		mu.Lock()
+		if !closed {
+			closed, reason = true, string(r)
+		}
+		mu.Unlock()
+		cond.Broadcast()
+	})
+	csock := make([]sio.ClientSocket, len(sc.Names))
+	connected := 0
+	for i, n := range sc.Names {
+		s := m.Socket(n, nil)
+		csock[i] = s
+		register(0, i, s.OnEvent)
+		s.OnConnect(func() {
+			mu.Lock()
+			connected++
+			mu.Unlock()
+			cond.Broadcast()
+		})
+		s.Connect()
+	}
+	waitUntil := func(d time.Duration, pred func() bool) bool {
+		deadline := time.Now().Add(d)
+		stop := make(chan struct{})
+		defer close(stop)
+		go func() {
+			t := time.NewTicker(20 * time.Millisecond)
+			defer t.Stop()
+			for {
+				select {
+				case <-t.C:
+					cond.Broadcast()
+				case <-stop:
+					return
+				}
+			}
+		}()
+		mu.Lock()
+		defer mu.Unlock()
+		for !pred() {
+			if time.Now().After(deadline) {
+				return false
+			}
+			cond.Wait()
+		}
+		return true
+	}
+	allUp := func() bool {
+		if connected < len(sc.Names) {
+			return false
+		}
+		for _, s := range ssock {
+			if s == nil {
+				return false
+			}
+		}
+		return true
+	}
+	if !waitUntil(10*time.Second, allUp) {
+		sc.Err = "namespaces did not connect"
+		return
+	}
+	time.Sleep(nsSettle)
+
+	start := make(chan struct{})
+	var wg sync.WaitGroup
+	emit := func(dir, ns, em int) {
+		defer wg.Done()
+		<-start
+		for seq := 0; seq < sc.Rounds; seq++ {
+			mu.Lock()
+			dead := closed
+			mu.Unlock()
+			if dead {
+				return
+			}
+			var args []any
+			name := "t"
+			if (seq+em+ns)%2 == 0 {
+				name = "b"
+				args = []any{ns, em, seq}
+				for k := 0; k < burstAtts; k++ {
+					args = append(args, burstBlob(dir, ns, em, seq, k))
+				}
+			} else {
+				args = []any{ns, em, seq, burstNote(dir, ns, em, seq)}
+			}
+			switch {
+			case dir == 1 && sc.Bcast && em == 0:
+				srv.Of(sc.Names[ns]).Emit(name, args...)
+			case dir == 1:
+				ssock[ns].Emit(name, args...)
+			default:
+				csock[ns].Emit(name, args...)
+			}
+		}
+	}
+	for dir := 0; dir < 2; dir++ {
+		for ns := range sc.Names {
+			for em := 0; em < sc.Em; em++ {
+				wg.Add(1)
+				go emit(dir, ns, em)
+			}
+		}
+	}
+	close(start)
+	wg.Wait()
+	want := 2 * len(sc.Names) * sc.Em * sc.Rounds
+	waitUntil(15*time.Second, func() bool { return closed || len(del) >= want })
+	time.Sleep(100 * time.Millisecond)
+	mu.Lock()
+	sc.Del = append([][]int{}, del...)
+	sc.Closed, sc.Reason = closed, reason
+	mu.Unlock()
+}
+
+func burstMain(seed uint64, n int, rounds int, out *vk.Out) {
+	rng := vk.NewRand(seed)
+	pool := [][]string{{"/a", "/ab"}, {"/", "/a", "/a/b"}, {"/a", "/b"}, {"", "/ab", "/b"}}
+	for i := 0; i < n; i++ {
+		sc := &nsBurst{ID: fmt.Sprintf("burst-%d-%d", seed, i), Mode: "burst", Names: pool[rng.Intn(len(pool))],
+			Tr: "websocket", Em: 2 + rng.Intn(2), Rounds: rounds, Bcast: rng.Bool()}
+		if rng.Intn(4) == 0 {
+			sc.Tr = "polling"
+		}
+		runBurst(sc)
+		out.Put(sc)
+	}
 }
